@@ -12,6 +12,7 @@
  *  (A) a put is rejected without being offered to the successor only if the limiter may be full: the truncating count
  *      c (c = max(0, c - delta) on decrement, c + 1 on forward) -- an upper bound of every legal internal count -- is >= threshold;
  *  (B) a message offered and rejected by the successor is dropped and leaves the counters unchanged;
+ *  (D) no stuck message at quiescence: NOT (below threshold AND cached predecessor holds a message AND no forwarder task);
  *  (C) pull protocol: after a successful reserve exactly one of consume (offer accepted) / release (rejected) follows,
  *      no offer without a reservation, my_tries back to 0 whenever no call is in flight, my_count <= threshold always. */
 #include "w.h"
@@ -47,7 +48,8 @@ u32 vp_sink(u32 id, u32 v) {
 u32 vp_src_reserve(u32* v) { VP_ASSERT(!src_reserved, "second reservation on the predecessor"); if (src_left <= 0) return 0; src_val = (int)vp_nd(); *v = (u32)src_val; src_reserved = 1; pulled_offer = 0; return 1; }
 void vp_src_release(void) { VP_ASSERT(src_reserved, "release without reservation"); src_reserved = 0; n_rel++; }
 void vp_src_consume(void) { VP_ASSERT(src_reserved && pulled_offer, "consume without reservation/offer"); src_reserved = 0; src_left--; n_cons++; }
-void vp_src_regsucc(void) { n_regsucc++; }
+static int pred_cached;
+void vp_src_regsucc(void) { n_regsucc++; pred_cached = 0; VP_ASSERT(src_left <= 0 || src_reserved, "limiter handed the edge back although the predecessor has a free message"); }
 static void run_one(void) { if (bag_n) { void* t = bag[0]; for (unsigned i = 0; i + 1 < BAGMAX; i++) bag[i] = bag[i + 1]; bag_n--;
     void* b = vp_run_task(t);
     /* a bypass task (the limiter's retry forwarder after a rejected pull) is what the worker runs next */
@@ -61,7 +63,7 @@ static void settled(void) {
 static unsigned nrun;
 static void run(unsigned accpat) {
   acc_bits = accpat; fwd = 0; dec_sum = 0; ctrunc = 0; noffer = 0; in_put = 0; offered = 0; reentrant = 0;
-  src_reserved = 0; pulled_offer = 0; n_cons = 0; n_rel = 0; n_regsucc = 0; fg_reset();
+  src_reserved = 0; pulled_offer = 0; pred_cached = 0; n_cons = 0; n_rel = 0; n_regsucc = 0; fg_reset();
   T = THR;   /* concrete per scenario: a symbolic store into the node object defeats cbmc constant propagation of its other members */
   src_left = AVAIL;
   vp_init(T, 1);
@@ -81,13 +83,15 @@ static void run(unsigned accpat) {
     }
     else if (op >= 20 && op < 30) do_decrement(op - 20);
     else if (op == 3) run_one();
-    else if (op == 4) vp_add_pred();
+    else if (op == 4) { pred_cached = 1; vp_add_pred(); }
     settled();
   }
   for (int i = 0; i < BAGRUNS; i++) { run_one(); settled(); }
   /* (a limiter whose successor keeps rejecting while its predecessor has items re-spawns its forwarder for ever: the accept
      patterns used let it terminate: offers beyond the pattern width are accepted) */
   VP_ASSERT(bag_n == 0, "VP bound: tasks still pending after BAGRUNS executions");
+  /* no stuck message: below the threshold, a cached predecessor with a free message, a successor, and no forwarder left */
+  VP_ASSERT(!(pred_cached && src_left > 0 && !src_reserved && vp_count() + vp_tries() < T), "stuck message: limiter below its threshold, cached predecessor holds a message, no forwarder task left");
   VP_ASSERT(vp_graph_refs() == 0 && n_alloc == n_free, "task accounting: graph wait count / allocations not balanced");
   nrun++;
 }
